@@ -5,219 +5,4 @@
 
 @include inc/cw3_proposal.vsi
 
-// ===================================================================== C04 lemmas: exactness, rounding, monotonicity, soundness of early decisions
-pub proof fn lemma_ceil_div(n: int, d: int)
-    requires n >= 0, d > 0
-    ensures (n + d - 1) / d == n / d + (if n % d > 0 { 1int } else { 0int })
-{
-    vstd::arithmetic::div_mod::lemma_fundamental_div_mod(n, d);
-    vstd::arithmetic::div_mod::lemma_mod_bound(n, d);
-    let q = n / d; let r = n % d;
-    if r > 0 {
-        assert(n + d - 1 == (q + 1) * d + (r - 1)) by (nonlinear_arith) requires n == d * q + r;
-        vstd::arithmetic::div_mod::lemma_fundamental_div_mod_converse(n + d - 1, d, q + 1, r - 1);
-    } else {
-        assert(n + d - 1 == q * d + (d - 1)) by (nonlinear_arith) requires n == d * q + r, r == 0;
-        vstd::arithmetic::div_mod::lemma_fundamental_div_mod_converse(n + d - 1, d, q, d - 1);
-    }
-}
-
-/// decomposition: with X = w*a = 10^18*q + r, the library needs q + [r >= 10^9] votes and the exact formula q + [r > 0]
-pub proof fn lemma_vn_decomp(w: int, a: int)
-    requires 0 <= w, 0 <= a
-    ensures
-        vn(w, a) == (w * a) / D18() + (if (w * a) % D18() >= P9() { 1int } else { 0int }),
-        need_exact(w, a) == (w * a) / D18() + (if (w * a) % D18() > 0 { 1int } else { 0int }),
-{
-    let x = w * a;
-    assert(x >= 0) by (nonlinear_arith) requires x == w * a, w >= 0, a >= 0;
-    let p = P9(); let d = D18();
-    assert(d == p * p) by (nonlinear_arith) requires d == 1_000_000_000_000_000_000, p == 1_000_000_000;
-    // f = (p*w*a)/d == x / p
-    assert((p * w) * a == p * x) by (nonlinear_arith) requires x == w * a;
-    assert(p * x >= 0) by (nonlinear_arith) requires x >= 0, p > 0;
-    vstd::arithmetic::div_mod::lemma_div_denominator(p * x, p, p);
-    vstd::arithmetic::div_mod::lemma_div_by_multiple(x, p);
-    assert((p * x) / p == x) by { vstd::arithmetic::mul::lemma_mul_is_commutative(p, x); }
-    let f = (p * x) / d;
-    assert(f == x / p);
-    // x = d*q + r ; r = p*r1 + r0
-    let q = x / d; let r = x % d;
-    vstd::arithmetic::div_mod::lemma_fundamental_div_mod(x, d);
-    vstd::arithmetic::div_mod::lemma_mod_bound(x, d);
-    let r1 = r / p; let r0 = r % p;
-    vstd::arithmetic::div_mod::lemma_fundamental_div_mod(r, p);
-    vstd::arithmetic::div_mod::lemma_mod_bound(r, p);
-    assert(0 <= r1 < p) by (nonlinear_arith) requires r == p * r1 + r0, 0 <= r0 < p, 0 <= r < p * p, p > 0;
-    assert(x == (p * q + r1) * p + r0) by (nonlinear_arith) requires x == d * q + r, r == p * r1 + r0, d == p * p;
-    vstd::arithmetic::div_mod::lemma_fundamental_div_mod_converse(x, p, p * q + r1, r0);
-    assert(f == p * q + r1);
-    // vn = ceil(f / p)
-    vstd::arithmetic::div_mod::lemma_div_pos_is_pos(x, d);
-    assert(f >= 0) by (nonlinear_arith) requires f == p * q + r1, q >= 0, r1 >= 0, p > 0;
-    lemma_ceil_div(f, p);
-    assert(f == q * p + r1) by (nonlinear_arith) requires f == p * q + r1;
-    vstd::arithmetic::div_mod::lemma_fundamental_div_mod_converse(f, p, q, r1);
-    assert(vn(w, a) == q + (if r1 > 0 { 1int } else { 0int }));
-    assert((r1 > 0) == (r >= p)) by (nonlinear_arith) requires r == p * r1 + r0, 0 <= r0 < p, r1 >= 0, p > 0;
-    lemma_ceil_div(x, d);
-}
-
-// serves: C04
-/// percentages with at most 9 decimal places are handled exactly: the library's requirement is ceil(w * p)
-pub proof fn lemma_vn_exact(w: int, a: int)
-    requires 0 <= w, 0 <= a, a % P9() == 0
-    ensures vn(w, a) == need_exact(w, a)
-{
-    lemma_vn_decomp(w, a);
-    let p = P9(); let d = D18(); let x = w * a;
-    let b = a / p;
-    vstd::arithmetic::div_mod::lemma_fundamental_div_mod(a, p);
-    assert(x == p * (w * b)) by (nonlinear_arith) requires x == w * a, a == p * b;
-    assert(x >= 0) by (nonlinear_arith) requires x == w * a, w >= 0, a >= 0;
-    // r = x % d is a multiple of p, so r > 0 <==> r >= p
-    let q = x / d; let r = x % d;
-    vstd::arithmetic::div_mod::lemma_fundamental_div_mod(x, d);
-    vstd::arithmetic::div_mod::lemma_mod_bound(x, d);
-    assert(d == p * p) by (nonlinear_arith) requires d == 1_000_000_000_000_000_000, p == 1_000_000_000;
-    assert(r == p * (w * b - p * q)) by (nonlinear_arith) requires x == d * q + r, x == p * (w * b), d == p * p;
-    assert((r > 0) == (r >= p)) by (nonlinear_arith) requires r == p * (w * b - p * q), r >= 0, p > 0;
-}
-
-// serves: C04
-/// with up to 18 decimal places the library is within one vote of the exact formula and never stricter than it
-pub proof fn lemma_vn_bounds(w: int, a: int)
-    requires 0 <= w, 0 <= a
-    ensures need_exact(w, a) - 1 <= vn(w, a) <= need_exact(w, a)
-{
-    lemma_vn_decomp(w, a);
-}
-
-// serves: C04
-pub proof fn lemma_vn_mono(w1: int, w2: int, a: int)
-    requires 0 <= w1 <= w2, 0 <= a
-    ensures vn(w1, a) <= vn(w2, a)
-{
-    let p = P9(); let d = D18();
-    assert((p * w1) * a <= (p * w2) * a) by (nonlinear_arith) requires 0 <= w1 <= w2, a >= 0, p > 0;
-    vstd::arithmetic::div_mod::lemma_div_is_ordered((p * w1) * a, (p * w2) * a, d);
-    vstd::arithmetic::div_mod::lemma_div_is_ordered(((p * w1) * a) / d + p - 1, ((p * w2) * a) / d + p - 1, p);
-}
-
-// serves: C04
-/// the requirement for p and the requirement for 1-p together cover the whole weight
-pub proof fn lemma_vn_complement(w: int, a: int)
-    requires 0 <= w, 0 <= a <= D18()
-    ensures vn(w, a) + vn(w, D18() - a) >= w
-{
-    let p = P9(); let d = D18();
-    lemma_vn_decomp(w, a);
-    lemma_vn_decomp(w, d - a);
-    let x = w * a; let y = w * (d - a);
-    assert(x + y == d * w) by (nonlinear_arith) requires x == w * a, y == w * (d - a);
-    assert(x >= 0 && y >= 0) by (nonlinear_arith) requires x == w * a, y == w * (d - a), w >= 0, 0 <= a <= d;
-    vstd::arithmetic::div_mod::lemma_fundamental_div_mod(x, d);
-    vstd::arithmetic::div_mod::lemma_fundamental_div_mod(y, d);
-    vstd::arithmetic::div_mod::lemma_mod_bound(x, d);
-    vstd::arithmetic::div_mod::lemma_mod_bound(y, d);
-    let qx = x / d; let rx = x % d; let qy = y / d; let ry = y % d;
-    // rx + ry is a multiple of d below 2d: 0 or d
-    assert(rx + ry == d * (w - qx - qy)) by (nonlinear_arith) requires x == d * qx + rx, y == d * qy + ry, x + y == d * w;
-    assert(rx + ry == 0 || rx + ry == d) by (nonlinear_arith) requires rx + ry == d * (w - qx - qy), 0 <= rx < d, 0 <= ry < d, d > 0;
-    if rx + ry == 0 {
-        assert(qx + qy == w) by (nonlinear_arith) requires rx + ry == d * (w - qx - qy), rx + ry == 0, d > 0;
-    } else {
-        assert(qx + qy == w - 1) by (nonlinear_arith) requires rx + ry == d * (w - qx - qy), rx + ry == d, d > 0;
-        // one of the two remainders is at least d/2 >= p
-        assert(rx >= p || ry >= p) by (nonlinear_arith) requires rx + ry == d, d == 1_000_000_000_000_000_000, p == 1_000_000_000;
-    }
-}
-
-/// a completion of the outstanding votes: every counter may only grow, within the total weight
-pub open spec fn completes(p: Proposal, q: Proposal) -> bool {
-    q.threshold == p.threshold && q.total_weight == p.total_weight
-    && q.votes.yes >= p.votes.yes && q.votes.no >= p.votes.no && q.votes.abstain >= p.votes.abstain && q.votes.veto >= p.votes.veto
-    && tally(q.votes) <= q.total_weight
-}
-
-// serves: C04 C03
-/// a tally is never reported both passed and rejected
-pub proof fn lemma_not_both(p: Proposal, expired: bool)
-    requires prop_wf(p)
-    ensures !(spec_passed(p, expired) && spec_rejected(p, expired))
-{
-    match p.threshold {
-        Threshold::AbsoluteCount { weight } => {}
-        Threshold::AbsolutePercentage { percentage } => { lemma_vn_complement(p.total_weight - p.votes.abstain, percentage.0 as int); }
-        Threshold::ThresholdQuorum { threshold, quorum } => {
-            lemma_vn_complement(p.total_weight - p.votes.abstain, threshold.0 as int);
-            lemma_vn_complement(tally(p.votes) - p.votes.abstain, threshold.0 as int);
-        }
-    }
-}
-
-// serves: C04 C03
-/// Passed before expiry is reported only if every completion of the outstanding votes still passes at expiry
-pub proof fn lemma_passed_early_sound(p: Proposal, q: Proposal)
-    requires prop_wf(p), completes(p, q), spec_passed(p, false)
-    ensures spec_passed(q, true), spec_passed(q, false)
-{
-    match p.threshold {
-        Threshold::AbsoluteCount { weight } => {}
-        Threshold::AbsolutePercentage { percentage } => {
-            lemma_vn_mono(q.total_weight - q.votes.abstain, p.total_weight - p.votes.abstain, percentage.0 as int);
-        }
-        Threshold::ThresholdQuorum { threshold, quorum } => {
-            lemma_vn_mono(tally(q.votes) - q.votes.abstain, p.total_weight - p.votes.abstain, threshold.0 as int);
-            lemma_vn_mono(q.total_weight - q.votes.abstain, p.total_weight - p.votes.abstain, threshold.0 as int);
-        }
-    }
-}
-
-// serves: C04 C03
-/// Rejected before expiry is reported only if no completion of the outstanding votes can pass
-pub proof fn lemma_rejected_early_sound(p: Proposal, q: Proposal)
-    requires prop_wf(p), completes(p, q), spec_rejected(p, false)
-    ensures !spec_passed(q, true), !spec_passed(q, false)
-{
-    match p.threshold {
-        Threshold::AbsoluteCount { weight } => {}
-        Threshold::AbsolutePercentage { percentage } => {
-            let w = p.total_weight - p.votes.abstain; let w2 = q.total_weight - q.votes.abstain;
-            lemma_vn_complement(w2, percentage.0 as int);
-            lemma_vn_mono(w2, w, D18() - percentage.0);
-        }
-        Threshold::ThresholdQuorum { threshold, quorum } => {
-            let w = p.total_weight - p.votes.abstain;
-            let w2 = q.total_weight - q.votes.abstain; let w3 = tally(q.votes) - q.votes.abstain;
-            lemma_vn_complement(w2, threshold.0 as int); lemma_vn_complement(w3, threshold.0 as int);
-            lemma_vn_mono(w2, w, D18() - threshold.0); lemma_vn_mono(w3, w, D18() - threshold.0);
-        }
-    }
-}
-
-// serves: C04
-/// after expiry the decision is the documented formula in exact arithmetic (for percentages with up to 9 decimal places)
-pub proof fn lemma_expired_decision_is_documented(p: Proposal)
-    requires prop_wf(p),
-        match p.threshold {
-            Threshold::AbsoluteCount { weight } => true,
-            Threshold::AbsolutePercentage { percentage } => percentage.0 % 1_000_000_000 == 0,
-            Threshold::ThresholdQuorum { threshold, quorum } => threshold.0 % 1_000_000_000 == 0 && quorum.0 % 1_000_000_000 == 0,
-        }
-    ensures spec_passed(p, true) == (p.votes.yes > 0 && match p.threshold {
-            Threshold::AbsoluteCount { weight } => p.votes.yes >= weight,
-            Threshold::AbsolutePercentage { percentage } => p.votes.yes >= need_exact(p.total_weight - p.votes.abstain, percentage.0 as int),
-            Threshold::ThresholdQuorum { threshold, quorum } => tally(p.votes) >= need_exact(p.total_weight as int, quorum.0 as int)
-                && p.votes.yes >= need_exact(tally(p.votes) - p.votes.abstain, threshold.0 as int),
-        })
-{
-    match p.threshold {
-        Threshold::AbsoluteCount { weight } => {}
-        Threshold::AbsolutePercentage { percentage } => { lemma_vn_exact(p.total_weight - p.votes.abstain, percentage.0 as int); }
-        Threshold::ThresholdQuorum { threshold, quorum } => {
-            lemma_vn_exact(p.total_weight as int, quorum.0 as int);
-            lemma_vn_exact(tally(p.votes) - p.votes.abstain, threshold.0 as int);
-        }
-    }
-}
+@include inc/cw3_lemmas.vsi
